@@ -95,7 +95,7 @@ def correspond(ctx):
     t0 = time.time()
     cases = list(zoo.cases())
     cases.sort(key=lambda c: (c.cls_name not in flipped, c.cls_name not in leads, c.family, c.cls_name, c.config))
-    seeds = [ctx.seed] if not ctx.thorough else [ctx.seed, ctx.seed + 101]
+    seeds = [ctx.seed] if not ctx.thorough else [ctx.seed + 101 * k for k in range(4)]
     for i, case in enumerate(cases):
         lead = case.cls_name in leads or case.cls_name in flipped
         for seed in seeds:
